@@ -242,6 +242,37 @@ theorem respond_ok (hooks : List Hook) (run : Nat → Binding → Outcome) (path
             rw [hf] at hf'; cases hf'
           · simp [ha]
 
+/-! ## `SafeURLString` yields URL-safe ids -/
+
+theorem mem_squeezeDashes : ∀ (l : Str) (c : Char), c ∈ squeezeDashes l → c ∈ l
+  | [], _, h => by simp [squeezeDashes] at h
+  | x :: xs, c, h => by
+    simp only [squeezeDashes] at h
+    split at h
+    · rename_i hx
+      split at h
+      · rename_i rest hs
+        rcases List.mem_cons.1 h with h | h
+        · simp [h, hx]
+        · have : c ∈ squeezeDashes xs := by rw [hs]; simp [h]
+          exact List.mem_cons_of_mem _ (mem_squeezeDashes xs c this)
+      · rcases List.mem_cons.1 h with h | h
+        · simp [h, hx]
+        · exact List.mem_cons_of_mem _ (mem_squeezeDashes xs c h)
+    · rcases List.mem_cons.1 h with h | h
+      · simp [h]
+      · exact List.mem_cons_of_mem _ (mem_squeezeDashes xs c h)
+
+/-- every character of a webhook id is one of `a-z 0-9 - /`: the registered path needs no escaping
+and contains no upper-case letter, blank or dot -/
+theorem safeURL_chars (s : Str) : ∀ c ∈ safeURL s, isSafeChar c = true := by
+  intro c hc
+  have := mem_squeezeDashes _ c hc
+  obtain ⟨d, _, hd⟩ := List.mem_map.1 this
+  by_cases hs : isSafeChar d = true
+  · simp only [hs, if_true] at hd; rw [← hd]; exact hs
+  · simp only [hs, Bool.false_eq_true, if_false] at hd; rw [← hd]; decide
+
 /-! ## facts regenerated from the sources (tie T1) -/
 
 /-- `SafeURLString` is the three documented replacements, in this order: `([A-Z])` → `-$1`, lower
